@@ -19,7 +19,9 @@ from checks import c05, c01, c12
 LEVEL = "model_checking"
 PANICS = ["panic_nil", "panic_err", "panic_str", "panic_rt", "panic_struct",
           # an error value wrapping context.Canceled; a value of an uncomparable type; the same item panicking twice in a row
-          "panic_cancel", "panic_slice", "panic_twice"]
+          "panic_cancel", "panic_slice", "panic_twice",
+          # an error value whose Error method panics (nil pointer receiver): added after seeded change C06-AA
+          "panic_nilerr"]
 
 
 def run(ctx):
